@@ -18,6 +18,10 @@ import (
 	"verifharness/props/c09"
 	"verifharness/props/c10"
 	"verifharness/props/c12"
+	"verifharness/props/c13"
+	"verifharness/props/c14"
+	"verifharness/props/c15"
+	"verifharness/props/c16"
 	"verifharness/props/c17"
 	"verifharness/props/c18"
 	"verifharness/props/c19"
@@ -25,6 +29,10 @@ import (
 )
 
 var props = map[string]func(*core.Ctx) int{
+	"C16": c16.Run,
+	"C15": c15.Run,
+	"C14": c14.Run,
+	"C13": c13.Run,
 	"C10": c10.Run,
 	"C09": c09.Run,
 	"C20": c20.Run,
